@@ -308,6 +308,11 @@ class NoPanic:
                                         if u != INF and (best is None or u < best):
                                             best = u
                             if best is None:
+                                # no explicit len(): `if self.f.get(i).is_none() { self.f.push(..) }` bounds the length just as well
+                                u = B.upper(("len", ("field", ("param", fn.path, 1), field)), b2)
+                                if u != INF:
+                                    best = u
+                            if best is None:
                                 return None, "the push in %s is not guarded by a bounded length test" % fn.path
                             bound = max(bound, best + 1)
         return bound, "every constructor starts with <= %d element(s); the %d push site(s) are guarded by a length test the prover bounds; nothing else grows the field" % (max(inits), npush)
@@ -833,6 +838,22 @@ class NoPanic:
                 # this iteration precedes, i.e. exits come from blocks from which the defs are still ahead (checked by the path walk: state 0)
                 exit_srcs = {e[0] for e in L["exits"] if e[1] not in div}
 
+                _odd = []
+
+                def inc_on_odd_only():
+                    if not _odd:
+                        IN_ = flow.must_facts(fn, evs)
+                        okk = True
+                        for b_, c_ in cls.items():
+                            if c_ != "inc":
+                                continue
+                            rels_ = flow.rel_facts_at(IN_, b_)
+                            if not any((r[0] == "Ne" and isinstance(r[1], tuple) and r[1][0] == "bin" and r[1][1] in ("Rem", "BitAnd") and r[1][2] == SYM and r[2] == ("int", 0)) or
+                                       (r[0] == "Eq" and isinstance(r[1], tuple) and r[1][0] == "bin" and r[1][1] in ("Rem", "BitAnd") and r[1][2] == SYM and r[2] == ("int", 1)) for r in rels_):
+                                okk = False
+                        _odd.append(okk)
+                    return _odd[0]
+
                 def walk(defcls, accept, one_only):
                     """all iteration paths h -> h: sequence of classified defs accepted by the automaton"""
                     seen = set()
@@ -860,8 +881,8 @@ class NoPanic:
                                 return False
                             st = 2
                         elif c == "halve-ceil":
-                            if st != 0:
-                                return False
+                            if st != 0 and not (st == 1 and inc_on_odd_only()):
+                                return False        # n+1 then ceil((n+1)/2) makes no progress at n = 2 unless the +1 happens on odd n only
                             st = 2
                         for x in fn.succ(b):
                             if x in body:
@@ -1560,6 +1581,26 @@ class NoPanic:
         name = p.split("::")[-1]
         cargs = x[2]
         site = x[3]
+        if name in ("pop", "last", "first", "last_mut", "first_mut") and cargs and ("alloc::vec::Vec" in p or "core::slice" in p) and site and site[0] == fn.path:
+            # the container is non-empty where the call is made (a length assertion or test dominates it)
+            if B.lower(("len", cargs[0]), site[1]) >= 1:
+                return "%s() on a container whose length is >= 1 at that point" % name
+            # the length was read (and found >= 1) a few blocks earlier, with nothing in between that takes anything by `&mut`
+            for r in flow.rel_facts_at(B.IN, site[1]):
+                for lt, other, op in ((r[1], r[2], r[0]), (r[2], r[1], {"Lt": "Gt", "Le": "Ge"}.get(r[0], r[0]))):
+                    if not (isinstance(lt, tuple) and len(lt) == 3 and lt[0] == "len" and lt[1] == cargs[0] and isinstance(lt[2], tuple) and lt[2][0] == fn.path):
+                        continue
+                    lo_ok = (op == "Eq" and isinstance(other, tuple) and other[0] == "int" and other[1] >= 1) or \
+                            (op in ("Gt",) and isinstance(other, tuple) and other[0] == "int" and other[1] >= 0) or \
+                            (op in ("Ge",) and isinstance(other, tuple) and other[0] == "int" and other[1] >= 1)
+                    lb = lt[2][1]
+                    if not lo_ok or not fn.dominates(lb, site[1]):
+                        continue
+                    between = {x for x in fn.reachable() if x != lb and fn.reaches(lb, x) and (x == site[1] or fn.reaches(x, site[1])) and x != site[1]}
+                    ACCESS = ("index_mut", "deref_mut", "as_mut", "as_mut_slice", "get_mut", "iter_mut", "last_mut", "first_mut", "borrow_mut")
+                    if not any(fn.blocks[x].term["k"] == "call" and callee_name(fn.blocks[x].term["fn"].get("path", "")) not in ACCESS and
+                               any(str(ty).startswith("&mut") for ty in (fn.blocks[x].term.get("arg_tys") or [])) for x in between if x not in fn.diverging()):
+                        return "%s() on a container whose length was just found to be >= 1 (no mutation in between)" % name
         if name.startswith("write_u") or name.startswith("write_i") or name == "write_all":
             recv = cargs[0]
             cfn = P.fns.get(site[0])
